@@ -12,6 +12,152 @@ variable {F E : Type} {cx : Ctx F E}
 theorem opt_bind_some {α β : Type} {o : Option α} {f : α → Option β} {a : α} {b : β}
     (h1 : o = some a) (h2 : f a = some b) : o.bind f = some b := by rw [h1]; exact h2
 
+/-! ### the specification's first-principles pieces are what the model's helpers compute -/
+
+@[simp] theorem intValued_eq (n : NodeId) : intValued cx n = isIntKind cx n := by
+  unfold intValued isIntKind
+  cases cx.graph n with
+  | none => rfl
+  | some nd => cases nd <;> rfl
+
+@[simp] theorem floatValued_eq (n : NodeId) : floatValued cx n = isFloatKind cx n := by
+  unfold floatValued isFloatKind
+  cases cx.graph n with
+  | none => rfl
+  | some nd => cases nd <;> rfl
+
+@[simp] theorem enumValued_eq (n : NodeId) : enumValued cx n = isEnumKind cx n := by
+  unfold enumValued isEnumKind
+  cases cx.graph n with
+  | none => rfl
+  | some nd => cases nd <;> rfl
+
+@[simp] theorem strValued_eq (n : NodeId) : strValued cx n = isStrKind cx n := by
+  unfold strValued isStrKind
+  cases cx.graph n with
+  | none => rfl
+  | some nd => cases nd <;> rfl
+
+@[simp] theorem selectIndexed_eq (es : List (Int × ImmOrPNode SlotId)) (d : ImmOrPNode SlotId) (i : Int) :
+    selectIndexed es d i = pIndexSelect es d i := by
+  induction es with
+  | nil => rfl
+  | cons e es ih =>
+    obtain ⟨j, v⟩ := e
+    unfold pIndexSelect at ih ⊢
+    simp only [selectIndexed, List.find?_cons]
+    by_cases h : j = i
+    · simp [h]
+    · have : (j == i) = false := by simpa using h
+      simp [h, this, ih]
+
+theorem firstEntryWithValue_eq (es : List NodeId) (v : Int) :
+    firstEntryWithValue cx es v = (resOpt (findEntryByValue cx es v)).join := by
+  induction es with
+  | nil => rfl
+  | cons e es ih =>
+    unfold firstEntryWithValue findEntryByValue entryValue
+    cases hg : cx.graph e with
+    | none => rfl
+    | some nd =>
+      cases nd <;> try rfl
+      rename_i b ev num sym
+      simp only
+      by_cases h : ev = v
+      · simp [h, resOpt]
+      · have : (ev == v) = false := by simpa using h
+        simp [h, this, ih]
+
+theorem entryValueNamed_eq (es : List NodeId) (name : String) :
+    entryValueNamed cx es name = (resOpt (entryValueBySymbolic cx es name)).join := by
+  induction es with
+  | nil => rfl
+  | cons e es ih =>
+    unfold entryValueNamed entryValueBySymbolic entrySymbolic entryValue
+    cases hg : cx.graph e with
+    | none => rfl
+    | some nd =>
+      cases nd <;> try rfl
+      rename_i b ev num sym
+      simp only
+      by_cases h : sym = name
+      · simp [h, resOpt]
+      · have : (sym == name) = false := by simpa using h
+        simp [h, this, ih]
+
+@[simp] theorem usizeOf_eq (l : Int) : usizeOf l = asUsize l := rfl
+
+theorem wrapI64_eq_bmod (x : Int) : wrapI64 x = Int.bmod x (2 ^ 64) := by
+  unfold wrapI64 Int.bmod
+  simp only
+  split <;> omega
+
+theorem inI64_iff (x : Int) : inI64 x = true ↔ InI64 x := by
+  unfold inI64 InI64 I64_MIN I64_MAX
+  simp only [Bool.and_eq_true, decide_eq_true_eq]
+  omega
+
+@[simp] theorem i64Result_add (p : Profile) (a b : Int) : i64Result p (a + b) = resOpt (addI64 p a b) := by
+  unfold i64Result addI64
+  by_cases h : inI64 (a + b) = true
+  · simp [h, (inI64_iff _).mp h, resOpt]
+  · have : ¬ InI64 (a + b) := fun h' => h ((inI64_iff _).mpr h')
+    cases hp : p.overflowChecks <;> simp [h, this, hp, resOpt, wrapI64_eq_bmod]
+
+@[simp] theorem i64Result_mul (p : Profile) (a b : Int) : i64Result p (a * b) = resOpt (mulI64 p a b) := by
+  unfold i64Result mulI64
+  by_cases h : inI64 (a * b) = true
+  · simp [h, (inI64_iff _).mp h, resOpt]
+  · have : ¬ InI64 (a * b) := fun h' => h ((inI64_iff _).mpr h')
+    cases hp : p.overflowChecks <;> simp [h, this, hp, resOpt, wrapI64_eq_bmod]
+
+theorem imageBytes_eq : ∀ (mem : Bytes) (k n : Nat), k + n ≤ mem.length →
+    imageBytes mem k n = some ((mem.drop k).take n)
+  | mem, k, 0, _ => by simp [imageBytes]
+  | mem, k, n + 1, h => by
+    have hk : k < mem.length := by omega
+    simp only [imageBytes, List.getElem?_eq_getElem hk]
+    rw [imageBytes_eq mem (k + 1) n (by omega)]
+    simp only [Option.map_some, Option.some.injEq]
+    rw [List.drop_eq_getElem_cons hk, List.take_succ_cons]
+
+@[simp] theorem imageRead_eq (d : Dev) (a : Int) (len : Nat) : imageRead d.mem a len = d.read a len := by
+  unfold imageRead Dev.read Dev.inRange
+  by_cases h : 0 ≤ a ∧ a.toNat + len ≤ d.mem.length
+  · simp [h, imageBytes_eq d.mem a.toNat len h.2]
+  · simp only [h, if_false]
+    have : (decide (0 ≤ a) && decide (a.toNat + len ≤ d.mem.length)) = false := by
+      simpa [Bool.and_eq_true] using h
+    simp [this]
+
+theorem imagePatch_eq : ∀ (mem : Bytes) (k : Nat) (ds : Bytes), k + ds.length ≤ mem.length →
+    imagePatch mem k ds = mem.take k ++ ds ++ mem.drop (k + ds.length)
+  | [], k, ds, h => by
+    have : ds = [] := by cases ds <;> simp at h ⊢
+    simp [imagePatch, this]
+  | m :: ms, 0, [], _ => by simp [imagePatch]
+  | m :: ms, 0, d :: ds, h => by
+    have := imagePatch_eq ms 0 ds (by simp at h ⊢; omega)
+    simp [imagePatch, this]
+  | m :: ms, k + 1, ds, h => by
+    have := imagePatch_eq ms k ds (by simp at h ⊢; omega)
+    simp only [imagePatch, this, List.take_succ_cons, List.cons_append, List.length_cons]
+    have e : k + 1 + ds.length = (k + ds.length) + 1 := by omega
+    rw [e, List.drop_succ_cons]
+
+@[simp] theorem imageWrite_eq (d : Dev) (a : Int) (data : Bytes) : imageWrite d a data = d.write a data := by
+  unfold imageWrite Dev.write Dev.writable Dev.inRange
+  by_cases h0 : 0 ≤ a <;> by_cases h1 : a.toNat + data.length ≤ d.mem.length <;>
+    by_cases h2 : a.toNat < d.roHi <;> by_cases h3 : d.roLo < a.toNat + data.length <;>
+    first
+    | simp [h0, h1, h2, h3, imagePatch_eq d.mem a.toNat data h1]
+    | simp [h0, h1, h2, h3]
+
+/-- rewrite the specification's first-principles pieces into the model's helpers -/
+macro "spec_norm" : tactic => `(tactic|
+  simp only [intValued_eq, floatValued_eq, enumValued_eq, strValued_eq, selectIndexed_eq, i64Result_add,
+    i64Result_mul, imageRead_eq, imageWrite_eq, firstEntryWithValue_eq] at *)
+
 /-! ### exec ⇒ spec -/
 
 /-- induction hypothesis: successful reads one level down are the reference values -/
@@ -49,6 +195,7 @@ theorem nidIntValue_spec {d : Nat} (ih : ValIH cx d) {p : NodeId} {s : S F} {v :
     (h : R.val (nidIntValue cx (execRec cx d) p) s = .ok v) : numInt cx (valSem cx d) p s = some v := by
   unfold nidIntValue at h
   unfold numInt
+  try spec_norm
   by_cases h1 : isIntKind cx p = true
   · simp only [h1, if_true] at h ⊢; exact ih.int _ _ _ h
   · by_cases h2 : isFloatKind cx p = true
@@ -64,6 +211,7 @@ theorem nidFloatValue_spec {d : Nat} (ih : ValIH cx d) {p : NodeId} {s : S F} {v
     (h : R.val (nidFloatValue cx (execRec cx d) p) s = .ok v) : numFloat cx (valSem cx d) p s = some v := by
   unfold nidFloatValue at h
   unfold numFloat
+  try spec_norm
   by_cases h1 : isIntKind cx p = true
   · simp only [h1, if_true, R.val_bind] at h ⊢
     obtain ⟨i, hi, h⟩ := Res.bind_eq_ok h
@@ -111,6 +259,7 @@ theorem vkIntValue_spec {d : Nat} (ih : ValIH cx d) {vk : ValueKind} {s : S F} {
   | pValue p cs => exact nidIntValue_spec ih h
   | pIndex sel es dflt =>
     simp only [vkIntValue, R.val_bind] at h
+    try spec_norm
     obtain ⟨i, hi, h⟩ := Res.bind_eq_ok h
     obtain ⟨hk, hv⟩ := pIndexIndex_spec ih hi
     simp [vkInt, hk, hv, slotOrNodeIntValue_spec ih h]
@@ -122,6 +271,7 @@ theorem vkFloatValue_spec {d : Nat} (ih : ValIH cx d) {vk : ValueKind} {s : S F}
   | pValue p cs => exact nidFloatValue_spec ih h
   | pIndex sel es dflt =>
     simp only [vkFloatValue, R.val_bind] at h
+    try spec_norm
     obtain ⟨i, hi, h⟩ := Res.bind_eq_ok h
     obtain ⟨hk, hv⟩ := pIndexIndex_spec ih hi
     simp [vkFloat, hk, hv, slotOrNodeFloatValue_spec ih h]
@@ -201,6 +351,7 @@ theorem intValueF_spec {d : Nat} (ih : ValIH cx d) (hnf : NoFormulaNodes cx) {n 
     (h : R.val (intValueF cx (execRec cx d) n) s = .ok v) : (valStep cx (valSem cx d)).int n s = some v := by
   unfold intValueF at h
   simp only [valStep]
+  try spec_norm
   have hn := hnf n
   cases hg : cx.graph n with
   | none => simp [hg] at h
@@ -220,6 +371,7 @@ theorem floatValueF_spec {d : Nat} (ih : ValIH cx d) (hnf : NoFormulaNodes cx) {
     (h : R.val (floatValueF cx (execRec cx d) n) s = .ok v) : (valStep cx (valSem cx d)).float n s = some v := by
   unfold floatValueF at h
   simp only [valStep]
+  try spec_norm
   have hn := hnf n
   cases hg : cx.graph n with
   | none => simp [hg] at h
@@ -233,6 +385,7 @@ theorem strValueF_spec {d : Nat} (ih : ValIH cx d) {n : NodeId} {s : S F} {v : B
     (h : R.val (strValueF cx (execRec cx d) n) s = .ok v) : (valStep cx (valSem cx d)).str n s = some v := by
   unfold strValueF at h
   simp only [valStep]
+  try spec_norm
   cases hg : cx.graph n with
   | none => simp [hg] at h
   | some nd =>
@@ -253,6 +406,7 @@ theorem enumCurrentValueF_spec {d : Nat} (ih : ValIH cx d) {n : NodeId} {s : S F
     (h : R.val (enumCurrentValueF cx (execRec cx d) n) s = .ok v) : (valStep cx (valSem cx d)).enum n s = some v := by
   unfold enumCurrentValueF at h
   simp only [valStep]
+  try spec_norm
   cases hg : cx.graph n with
   | none => simp [hg] at h
   | some nd =>
@@ -306,6 +460,7 @@ theorem slotStr_exec {id : SlotId} {s : S F} {v : Bytes}
 theorem numInt_exec {d : Nat} (ih : SpecIH cx d) {p : NodeId} {s : S F} {v : Int}
     (h : numInt cx (valSem cx d) p s = some v) : R.val (nidIntValue cx (execRec cx d) p) s = .ok v := by
   unfold numInt at h
+  try spec_norm
   unfold nidIntValue
   by_cases h1 : isIntKind cx p = true
   · simp only [h1, if_true] at h ⊢; exact ih.int _ _ _ h
@@ -320,6 +475,7 @@ theorem numInt_exec {d : Nat} (ih : SpecIH cx d) {p : NodeId} {s : S F} {v : Int
 theorem numFloat_exec {d : Nat} (ih : SpecIH cx d) {p : NodeId} {s : S F} {v : F}
     (h : numFloat cx (valSem cx d) p s = some v) : R.val (nidFloatValue cx (execRec cx d) p) s = .ok v := by
   unfold numFloat at h
+  try spec_norm
   unfold nidFloatValue
   by_cases h1 : isIntKind cx p = true
   · simp only [h1, if_true, Option.map_eq_some_iff] at h ⊢
@@ -358,6 +514,7 @@ theorem vkInt_exec {d : Nat} (ih : SpecIH cx d) {vk : ValueKind} {s : S F} {v : 
   | pValue p cs => exact numInt_exec ih h
   | pIndex sel es dflt =>
     simp only [vkInt] at h
+    try spec_norm
     by_cases hk : isIntKind cx sel = true
     · simp only [hk, if_true, Option.bind_eq_some_iff] at h
       obtain ⟨i, hi, h⟩ := h
@@ -371,6 +528,7 @@ theorem vkFloat_exec {d : Nat} (ih : SpecIH cx d) {vk : ValueKind} {s : S F} {v 
   | pValue p cs => exact numFloat_exec ih h
   | pIndex sel es dflt =>
     simp only [vkFloat] at h
+    try spec_norm
     by_cases hk : isIntKind cx sel = true
     · simp only [hk, if_true, Option.bind_eq_some_iff] at h
       obtain ⟨i, hi, h⟩ := h
@@ -387,6 +545,7 @@ theorem addrElem_exec {d : Nat} (ih : SpecIH cx d) {k : AddressKind} {s : S F} {
   | intSwissKnife n => exact numInt_exec ih h
   | pIndex sel off =>
     simp only [addrElem, Option.bind_eq_some_iff] at h
+    try spec_norm
     obtain ⟨b, hb, h⟩ := h
     cases off with
     | none => simp at h; simp [addrKindValue, numInt_exec ih hb, h]
@@ -401,6 +560,7 @@ theorem addrSum_exec {d : Nat} (ih : SpecIH cx d) {s : S F} :
   | [], acc, v, h => by simp [addrSum] at h; simp [sumAddrs, h]
   | k :: ks, acc, v, h => by
     simp only [addrSum, Option.bind_eq_some_iff] at h
+    try spec_norm
     obtain ⟨x, hx, acc', ha, h⟩ := h
     simp [sumAddrs, addrElem_exec ih hx, resOpt_some ha, addrSum_exec ih ks acc' v h]
 
@@ -408,6 +568,7 @@ theorem regBytes_exec {α : Type} {d : Nat} (ih : SpecIH cx d) {rb : RegBase} {f
     {s : S F} {bs : Bytes} (h : regBytes cx (valSem cx d) rb s = some bs) :
     R.val (withRead cx (execRec cx d) rb f) s = f bs := by
   simp only [regBytes, Option.bind_eq_some_iff] at h
+  try spec_norm
   obtain ⟨l, hl, a, ha, h⟩ := h
   by_cases hl0 : 0 ≤ l
   · simp only [hl0, if_true] at h
@@ -430,6 +591,7 @@ theorem regBytes_exec {α : Type} {d : Nat} (ih : SpecIH cx d) {rb : RegBase} {f
 theorem intValueF_exec {d : Nat} (ih : SpecIH cx d) {n : NodeId} {s : S F} {v : Int}
     (h : (valStep cx (valSem cx d)).int n s = some v) : R.val (intValueF cx (execRec cx d) n) s = .ok v := by
   simp only [valStep] at h
+  try spec_norm
   unfold intValueF
   cases hg : cx.graph n with
   | none => simp [hg] at h
@@ -441,11 +603,13 @@ theorem intValueF_exec {d : Nat} (ih : SpecIH cx d) {n : NodeId} {s : S F} {v : 
       simp [intRegValue, regBytes_exec ih hb, resOpt_some hf]
     · simp only [Option.bind_eq_some_iff] at h
       obtain ⟨bs, hb, x, hx, l, hl, hm⟩ := h
+      rw [usizeOf_eq] at hm
       simp [maskedValue, regBytes_exec ih hb, resOpt_some hx, regLength, immInt_exec ih hl, resOpt_some hm]
 
 theorem floatValueF_exec {d : Nat} (ih : SpecIH cx d) {n : NodeId} {s : S F} {v : F}
     (h : (valStep cx (valSem cx d)).float n s = some v) : R.val (floatValueF cx (execRec cx d) n) s = .ok v := by
   simp only [valStep] at h
+  try spec_norm
   unfold floatValueF
   cases hg : cx.graph n with
   | none => simp [hg] at h
@@ -459,6 +623,7 @@ theorem floatValueF_exec {d : Nat} (ih : SpecIH cx d) {n : NodeId} {s : S F} {v 
 theorem strValueF_exec {d : Nat} (ih : SpecIH cx d) {n : NodeId} {s : S F} {v : Bytes}
     (h : (valStep cx (valSem cx d)).str n s = some v) : R.val (strValueF cx (execRec cx d) n) s = .ok v := by
   simp only [valStep] at h
+  try spec_norm
   unfold strValueF
   cases hg : cx.graph n with
   | none => simp [hg] at h
@@ -479,6 +644,7 @@ theorem strValueF_exec {d : Nat} (ih : SpecIH cx d) {n : NodeId} {s : S F} {v : 
 theorem enumCurrentValueF_exec {d : Nat} (ih : SpecIH cx d) {n : NodeId} {s : S F} {v : Int}
     (h : (valStep cx (valSem cx d)).enum n s = some v) : R.val (enumCurrentValueF cx (execRec cx d) n) s = .ok v := by
   simp only [valStep] at h
+  try spec_norm
   unfold enumCurrentValueF
   cases hg : cx.graph n with
   | none => simp [hg] at h
@@ -532,6 +698,7 @@ theorem boolValueF_iff (cx : Ctx F E) (hnf : NoFormulaNodes cx) (d : Nat) (n : N
 theorem enumCurrentEntryF_iff (cx : Ctx F E) (hnf : NoFormulaNodes cx) (d : Nat) (n : NodeId) (s : S F) (e : NodeId) :
     R.val (enumCurrentEntryF cx (execRec cx d) n) s = .ok e ↔ specCurrentEntry cx d n s = some e := by
   unfold enumCurrentEntryF specCurrentEntry
+  simp only [firstEntryWithValue_eq]
   cases hg : cx.graph n with
   | none => simp
   | some nd =>
